@@ -15,7 +15,7 @@ import time
 from spverif.core.ctx import Ctx, finish, VERIF_ROOT
 from spverif.core import repo as repo_mod
 
-SUITE_PROPS = {"C01", "C02", "C03", "C04", "C05", "C06", "C07", "C08", "C10", "C11", "C14", "C15", "C20"}   # properties with online contracts
+SUITE_PROPS = {"C01", "C02", "C03", "C04", "C05", "C06", "C07", "C08", "C10", "C11", "C12", "C13", "C14", "C15", "C16", "C17", "C19", "C20"}   # properties with online contracts
 SHARD_TIMEOUT_S = 3000       # generous wall-clock watchdog: firing => inconclusive
 QUICK_TIMEOUT_S = 900
 
